@@ -379,6 +379,8 @@ def ev(t, env, W):
         b = ev(t[2], env, W)
         if t[1] == "Not" and isinstance(b, bool):
             return not b
+        if t[1] == "Len" and isinstance(b, tuple) and b and b[0] in ("arr", "str"):
+            return PI("usize", len(b[1]))
         if t[1] == "Neg" and isinstance(b, PI):
             return _wrap_prim(b.ty, -b.v)
         if t[1] == "Neg" and isinstance(b, FL):
@@ -623,6 +625,11 @@ def _prim_atom(name, label, t, env, W):
         a = ev(t[2][0], env, W)
         if isinstance(a, tuple) and a and a[0] in ("arr", "str"):
             return len(a[1]) == 0
+        return OPAQUE
+    if (label.startswith("[T]::len") or label == "str::len") and len(t[2]) == 1:
+        a = ev(t[2][0], env, W)
+        if isinstance(a, tuple) and a and a[0] in ("arr", "str"):
+            return PI("usize", len(a[1]))
         return OPAQUE
     if label == "str::as_bytes" and len(t[2]) == 1:
         a = ev(t[2][0], env, W)
@@ -884,6 +891,8 @@ def outcome(tree, env, W):
     leaf, opq, path = walk(tree, env, W)
     if opq is not None:
         return ("opaque", opq), path
+    if leaf[0] == "?":
+        return ("opaque", ("S", "loop body / unsummarised code (%s)" % (leaf[1],))), path
     if leaf[0] == "PANIC":
         return ("panic", leaf[1]), path
     if leaf[0] == "RET":
